@@ -13,7 +13,7 @@ import time
 
 VERIF = os.path.dirname(os.path.dirname(os.path.abspath(__file__)))
 SPECS = os.path.join(VERIF, "specs")
-EVID = os.path.join(VERIF, "evidence")
+EVID = os.environ.get("VERIF_EVIDENCE_DIR") or os.path.join(VERIF, "evidence")
 VIOL = os.path.join(EVID, "violations")
 REPO = os.environ.get("GSCRIB_REPO", "/repo")
 WORKROOT = os.path.join(VERIF, ".work")
@@ -41,6 +41,11 @@ def workdir():
         if not os.environ.get("VERIF_KEEP_WORK"):
             atexit.register(shutil.rmtree, _workdir, True)
     return _workdir
+
+
+def cleanup():
+    if _workdir is not None and not os.environ.get("VERIF_KEEP_WORK"):
+        shutil.rmtree(_workdir, True)
 
 
 def known_findings():
